@@ -29,6 +29,17 @@ CLAIMS = {
   design="DESIGN.md §4 C06",
   note="Assumes clock within [0,2^40] s, 1..16 servers; retry-budget induction harness (c06_budget) not yet built: the "
        "claim covers the timeout computation half of the property only."),
+ "C20": dict(
+  text="Bounded model checking (CBMC) of the real transport code as two one-step obligations from ARBITRARY buffer states: "
+       "(A) read_answers delivers exactly the complete frames present, whole/in order/once, keeping the incomplete tail; "
+       "(B) read_conn_packets appends exactly what the socket returned (TCP chunk of any size; UDP datagram incl. zero "
+       "length, foreign source dropped); (C) ares_conn_flush offers exactly the queued bytes and advances by what the "
+       "socket accepted (any partial write), write interest iff bytes remain. (A)+(B) give chopping independence by "
+       "induction over read events.",
+  design="DESIGN.md §4 C20",
+  note="Assumes the virtual socket layer (vsock.c) behind channel->sock_funcs, reference containers, parser replaced by a "
+       "recorder; buffers <= 12 bytes, chunks <= 5 bytes; read window reduced to 16 by the guarded hook "
+       "CARES_VERIF_READ_WINDOW; the truncation (TC) retry rule is checked in C05's acceptance harness once built."),
 }
 NA = {}
 for i in range(1, 21):
@@ -41,10 +52,10 @@ def main():
      "version": 1,
      "setup_cmd": "sh vp/setup.sh",
      "hooks": {"guard": "CARES_VERIF",
-               "enable": "vp/run.py passes -DCARES_VERIF to goto-cc for every translation unit it builds from /repo; "
-                         "no source hook exists in /repo so far (statics are reached by #include of the .c file)",
+               "enable": "vp/run.py passes -DCARES_VERIF to goto-cc for every translation unit it builds from /repo; the only "
+                         "source hook is -DCARES_VERIF_READ_WINDOW=<n> (read_conn_packets read window), passed by the C20 jobs",
                "baseline_off_cmd": "python3 vp/baseline_cmp.py",
-               "source_commits": [], "add_only": True},
+               "source_commits": ["5066bcf"], "add_only": True},
      "engines": [{"name": "cbmc-harness-runner", "path": "vp/run.py", "serves_properties": sorted(CLAIMS),
                   "kind_free_text": "goto-cc + CBMC 6.11 bounded model checking of real TUs, one job per harness x shape; "
                                     "native ASan/UBSan replay of counterexamples"}],
